@@ -236,7 +236,7 @@ impl World {
 
     /// observation of site `s` after an op that requested `n_data` recomputes
     async fn observe(&mut self, s: usize, status: &str, n_data: usize) -> String {
-        let got = self.sites[s].inst.collect(n_data, 5_000).await;
+        let got = self.sites[s].inst.collect(n_data, 15_000).await;
         let (status, evs) = match got {
             Ok(per_sub) => {
                 let first = format!("{:?}", per_sub[0]);
@@ -435,10 +435,14 @@ impl World {
         }
         drop(send);
         if let Some(tx) = stall {
-            // the stream's recompute request is answered (one data event) before the reader is released
-            match self.sites[s].inst.collect(1, 5_000).await {
-                Ok(per_sub) => pre = per_sub,
-                Err(e) => status = e,
+            // the stream's recompute request is answered (one data event) while the reader is held — unless
+            // the code orders the request after the acknowledgements, in which case nothing comes until the
+            // reader is released
+            if self.sites[s].inst.wait_data(1, 3_000).await {
+                match self.sites[s].inst.collect(1, 15_000).await {
+                    Ok(per_sub) => pre = per_sub,
+                    Err(e) => status = e,
+                }
             }
             let _ = tx.send(());
         }
@@ -884,7 +888,7 @@ impl World {
         }
         self.step_clock();
         // the grouping of cells into events depends on the schedule: the observation is the union
-        let got = self.sites[s].inst.collect(n_req, 5_000).await;
+        let got = self.sites[s].inst.collect(n_req, 15_000).await;
         let obs = match got {
             Ok(per_sub) => {
                 let first = format!("{:?}", per_sub[0]);
